@@ -53,18 +53,28 @@ IncrCfgs == {[kind |-> "incr", E |-> E, mode |-> m, bias |-> b, comp |-> c] : <<
                {<<E, m, b, c>> \in (SUBSET Pairs) \X {"concatenation", "subtraction"} \X {0, 1} \X Comps(NS) : GoodComp(c, E, m, b)}}
 Stats(E, mode, bias, n) == LET Q == Precision(E, mode, bias, n) IN
    [n |-> n, Q |-> Q, mean |-> MeanV(n), maha |-> [k \in 1..Len(Queries) |-> Maha(Q, Queries[k], n)]]
-Init == /\ cfg \in (IF "batch" \in Kinds THEN {c \in BatchCfgs : NonSingular(c.E, c.mode, c.bias, NS)} ELSE {}) \cup (IF "incr" \in Kinds THEN IncrCfgs ELSE {})
+\* ---- several features per vertex: the block inverse is an uninterpreted symbol Inv (numpy interprets it on the exact
+\* block covariance); the specification fixes WHICH block of WHICH edge is added WHERE
+BlockRange(v, k) == [from |-> (v - 1) * k, to |-> v * k]                      \* 0-based half-open feature range of vertex v
+Placement(E, k) == IF E = {} THEN [edges |-> <<>>, diagonal |-> [v \in 1..NV |-> BlockRange(v, k)]]
+                   ELSE [edges |-> LET S == E IN [i \in 1..Cardinality(S) |->
+                                     LET e == CHOOSE x \in S : Cardinality({y \in S : y[1] < x[1] \/ (y[1] = x[1] /\ y[2] < x[2])}) = i - 1
+                                     IN [a |-> BlockRange(e[1], k), b |-> BlockRange(e[2], k)]],
+                         diagonal |-> <<>>]
+BlockCfgs == [kind : {"blocks"}, E : SUBSET Pairs, mode : {"concatenation", "subtraction"}, bias : {0, 1}, comp : {<<>>}]
+Init == /\ cfg \in (IF "blocks" \in Kinds THEN BlockCfgs ELSE {}) \cup (IF "batch" \in Kinds THEN {c \in BatchCfgs : NonSingular(c.E, c.mode, c.bias, NS)} ELSE {}) \cup (IF "incr" \in Kinds THEN IncrCfgs ELSE {})
         /\ done = FALSE
-Out(c) == IF c.kind = "batch" THEN [case |-> c, nv |-> NV, data |-> Data, queries |-> Queries, stats |-> Stats(c.E, c.mode, c.bias, NS)]
+Out(c) == IF c.kind = "blocks" THEN [case |-> c, nv |-> NV, k |-> 2, placement |-> Placement(c.E, 2)] ELSE
+          IF c.kind = "batch" THEN [case |-> c, nv |-> NV, data |-> Data, queries |-> Queries, stats |-> Stats(c.E, c.mode, c.bias, NS)]
           ELSE [case |-> c, nv |-> NV, data |-> Data, queries |-> Queries,
                 steps |-> [k \in 1..Len(c.comp) |-> Stats(c.E, c.mode, c.bias, PrefixSum(c.comp, k))]]
 Next == /\ done = FALSE /\ done' = TRUE /\ cfg' = cfg /\ CSVWrite("%1$s", <<ToJson(Out(cfg))>>, IOEnv.OUT_FILE)
 Spec == Init /\ [][Next]_<<cfg, done>>
 \* ---- design-level properties of the assembled matrix -------------------------------------------------
 Q0 == Precision(cfg.E, cfg.mode, cfg.bias, NS)
-Symmetric == \A i, j \in 1..NV : Q0[i][j] = Q0[j][i]
-GraphSparse == \A i, j \in 1..NV : (i < j /\ <<i, j>> \notin cfg.E) => Q0[i][j] = Z0
-PSDOnPool == \A k \in 1..Len(Queries) : ~RLt(Maha(Q0, Queries[k], NS), Z0)
-ZeroAtMean == LET d == [a \in 1..NV |-> Z0]
+Symmetric == cfg.kind = "blocks" \/ \A i, j \in 1..NV : Q0[i][j] = Q0[j][i]
+GraphSparse == cfg.kind = "blocks" \/ \A i, j \in 1..NV : (i < j /\ <<i, j>> \notin cfg.E) => Q0[i][j] = Z0
+PSDOnPool == cfg.kind = "blocks" \/ \A k \in 1..Len(Queries) : ~RLt(Maha(Q0, Queries[k], NS), Z0)
+ZeroAtMean == cfg.kind = "blocks" \/ LET d == [a \in 1..NV |-> Z0]
                   f(i) == LET g(j) == RMul(d[i], RMul(Q0[i][j], d[j])) IN RSum(g, 1, NV) IN RSum(f, 1, NV) = Z0
 =====================================================================
